@@ -122,3 +122,10 @@ def run(chk):
     # every x_j >= 0, exactly when 0 <= lam_j <= 1/mu_j -- the range rule of the registered bets (C13.R3)
     from . import c13
     chk.borrow(c13.run, {"C13.R3": "C01.R7"})
+    # ... and the ALPHA factors when eta_j lies in [0, u]: the default eta is fixed from the u the test object is constructed
+    # with (C02.R2 three sites agree), and no tuning array inherits an integer sample's dtype (C12.R6)
+    from . import c02 as _c02, c12 as _c12
+    _n0 = len(chk.obs)
+    chk.borrow(_c02.r3_supermajority, {"C02.R2": "C01.R7"})
+    chk.obs = chk.obs[:_n0] + [o for o in chk.obs[_n0:] if o.rule != "C01.R7" or o.key == "three-sites-agree"]
+    chk.borrow(_c12.r6_dtype, {"C12.R6": "C01.R7"})
